@@ -95,7 +95,7 @@ def first_vel_corrn(dist, first_vel_param, temp, pressure,
         first_vel_corrn_metres = dist * first_vel_corrn_ppm * (10 ** -6)
         
     else:
-        if all([temp, pressure, rel_humidity, wavelength]):
+        if all(v is not None for v in (temp, pressure, rel_humidity, wavelength)):
             e = humidity2part_water_vapour_press(rel_humidity, temp)
             NPROPG_1 = group_refractivity(
                 wavelength, temp, pressure, e, CO2_ppm)
